@@ -76,7 +76,7 @@ def hmat(f, rep):
     allowed = {fs[n]['def'] for n in fs if n in ('new', 'set_entry_value', 'set_initiator_value', 'set_target_value', 'non_sequential_transfers', 'minimum_transfer_size_required')}
     rep.ob('isolation', ty + ':writers', ws <= allowed, 'other functions write the matrix: %s' % sorted(ws - allowed))
 
-def slit(f, rep):
+def slit(f, rep, with_checksum=True):
     ty = 'slit::SLIT'
     fs = fns_of(f, ty)
     if 'new' not in fs or 'set_distance' not in fs: rep.ob('anchor', ty, False, 'SLIT::new/set_distance not found'); return
@@ -105,6 +105,10 @@ def slit(f, rep):
     rep.ob('index', ty + '::set_distance', ok, 'set_distance stores at %s; specified: the cell and its mirror %s' % (sorted(got), sorted(want)), sp=fs['set_distance']['sp'],
            detail={'indices': sorted(got), 'specified': sorted(want)})
     rep.ob('isolation', ty + '::set_distance', sv.fields['localities'] == Ls, 'set_distance changes the matrix dimension', sp=fs['set_distance']['sp'])
+    # the checksum clause of the property: the SLIT's ledger obligations (shared with C01)
+    import rules.C01 as C01
+    from tables import Table
+    if with_checksum: C01.table_obligations(f, rep, Table(f, ty, ['header']))
     segs, Ie, _ = emission(f, ty); rep.analysed.add(f.method('Aml', ty, 'to_aml_bytes'))
     ok = not Ie.tops and segs[-1] == ('raw', ('a', 'self.entries'), ('len', ('a', 'self.entries'))) and segs[-2] == ('int', Ls, 8)
     rep.ob('emission-order', ty, ok, 'SLIT must emit the 64-bit locality count and then the cells in index order: %s' % show_segs(segs[-2:]), detail={'tail': show_segs(segs[-2:])})
